@@ -151,3 +151,13 @@ package app
 //@ func (*context).Serialise
 //@ trusted
 //@ ensures true
+
+// bookmark.go — reading the database back (property C19), cuts only: every decoded item's name and path are handed to
+// NewBookmark / NewFile exactly as decoded (nothing trimmed, folded or rewritten on the way), and the bookmark that is
+// stored is the one just built. JSON decoding itself is a dependency (encoding/json).
+//@ func NewBookmarksCollectionFromJson
+//@ noframe
+//@ cutsonly
+//@ before NewFile assert len(arg0) == 1 && same(arg0[0], *b.Path)
+//@ before NewBookmark assert same(arg0, *b.Name) && arg1 == file
+//@ ensures true
